@@ -118,6 +118,10 @@ def setup_instance(cfg, thumb, program, flags=0):
     regs.sctlr.u = 0
     regs.sctlr.a = 0
     regs.cpsr.value = 0x000001D3 | (0x20 if thumb else 0) | (flags << 28)
+    # make the traces sensitive to the extension configuration: a relocated vector base is only honoured with the
+    # security extension, and in Non-secure state the abort masking rules depend on the virtualisation extension
+    regs.vbar.value = 0x10400
+    regs.scr.ns = 1
     for n in range(13):
         regs.set(n, 0x10100 + 0x40 * n)
     regs.set(6, 0x10901)      # odd branch target
